@@ -141,7 +141,7 @@ def new_val(E, k):
     return x
 
 
-def g_sequences(depth, start_kinds, alphabets=None):
+def g_sequences(depth, start_kinds, alphabets=None, check_last_only=False):
     def run(E):
         th = _fx['th']
         IDs = th.chemicals.IDs
@@ -246,6 +246,8 @@ def g_sequences(depth, start_kinds, alphabets=None):
                 key = (other.phases[0], IDs[i]) if isinstance(other, tmo.MultiStream) else IDs[i]
                 getattr(other, 'i' + view)[key] = v
                 log.append(f'write-other-{view}')
+            if check_last_only and k < depth - 1:
+                continue
             check_views(E, s, ' ; '.join(log))
             if other is not None and op != 'link':
                 check_views(E, other, ' ; '.join(log) + ' [linked stream]')
@@ -285,6 +287,8 @@ def groups(tier):
         'single-operation-multiphase': (g_sequences(1, ['ms:lg']), dict(max_paths=200000, qtimeout_ms=20000)),
         # a structural change (link / copy_like / phases / T) followed by a write, total, state change or unlink
         'structure-then-use': (g_sequences(2, ['l'], chain), dict(max_paths=400000, qtimeout_ms=20000)),
+        # link, then either side unlinks, then a write on either side: the views of the two streams are independent again
+        'link-unlink-then-write': (g_sequences(3, ['l'], [['link'], ['unlink', 'unlink-other'], ['write', 'write-other']], check_last_only=True), dict(max_paths=400000, qtimeout_ms=20000)),
         'dimension-mismatch': (g_dimensions(), {}),
     }
     if not q:
